@@ -24,10 +24,13 @@ pub struct TickPlan {
     pub advance_to: u8,
     /// where a run spawned by this tick is held: index into HOLDS
     pub hold_next: u8,
+    /// the pattern is cleared (the following runs take the empty-pattern path); cancels like a change
+    #[serde(default)]
+    pub clear_pattern: bool,
 }
 
 /// phases at which the run is held between ticks
-const HOLDS: [u32; 4] = [site::RUN_AFTER_SCAN, site::RUN_AFTER_SORT, site::RUN_BEFORE_NOTIFY_READ, site::RUN_AFTER_NOTIFY];
+const HOLDS: [u32; 5] = [site::RUN_AFTER_SCAN, site::RUN_AFTER_SORT, site::RUN_BEFORE_NOTIFY_READ, site::RUN_AFTER_NOTIFY, site::RUN_JOB_DONE];
 
 #[derive(Clone, Debug, Serialize, Deserialize, Hash)]
 pub struct WakeCase {
@@ -72,7 +75,7 @@ fn tick_site(at: u8) -> u32 {
 pub fn single_tick_plans() -> Vec<WakeCase> {
     let mut v = vec![];
     for first_by_pattern in [false, true] {
-        for first_hold in 0..4u8 {
+        for first_hold in 0..5u8 {
             for timeout in [0u8, 1] {
                 for change_pattern in [false, true] {
                     for at in 0..4u8 {
@@ -80,7 +83,7 @@ pub fn single_tick_plans() -> Vec<WakeCase> {
                             if at == 0 && advance_to != 0 {
                                 continue;
                             }
-                            v.push(WakeCase { threads: 1, items: 30, first_by_pattern, first_hold, ticks: vec![TickPlan { timeout, change_pattern, more_items: false, at, advance_to, hold_next: 2 }], push_threads: 1, push_batches: vec![1, 3], empty_pattern: false, inflight_first: false, final_tick: false });
+                            v.push(WakeCase { threads: 1, items: 30, first_by_pattern, first_hold, ticks: vec![TickPlan { timeout, change_pattern, more_items: false, at, advance_to, hold_next: 2, clear_pattern: false }], push_threads: 1, push_batches: vec![1, 3], empty_pattern: false, inflight_first: false, final_tick: false });
                         }
                     }
                 }
@@ -91,8 +94,31 @@ pub fn single_tick_plans() -> Vec<WakeCase> {
     for empty_pattern in [true, false] {
         for first_hold in 0..4u8 {
             for threads in [1u8, 2] {
-                v.push(WakeCase { threads, items: 12, first_by_pattern: false, first_hold, ticks: vec![TickPlan { timeout: 0, change_pattern: false, more_items: false, at: 0, advance_to: 0, hold_next: 2 }], push_threads: 1, push_batches: vec![], empty_pattern, inflight_first: true, final_tick: true });
-                v.push(WakeCase { threads, items: 12, first_by_pattern: true, first_hold, ticks: vec![TickPlan { timeout: 1, change_pattern: false, more_items: true, at: 3, advance_to: 2, hold_next: 1 }], push_threads: 1, push_batches: vec![2], empty_pattern, inflight_first: false, final_tick: true });
+                v.push(WakeCase { threads, items: 12, first_by_pattern: false, first_hold, ticks: vec![TickPlan { timeout: 0, change_pattern: false, more_items: false, at: 0, advance_to: 0, hold_next: 2, clear_pattern: false }], push_threads: 1, push_batches: vec![], empty_pattern, inflight_first: true, final_tick: true });
+                v.push(WakeCase { threads, items: 12, first_by_pattern: true, first_hold, ticks: vec![TickPlan { timeout: 1, change_pattern: false, more_items: true, at: 3, advance_to: 2, hold_next: 1, clear_pattern: false }], push_threads: 1, push_batches: vec![2], empty_pattern, inflight_first: false, final_tick: true });
+            }
+        }
+    }
+    // a cancelled run followed by empty-pattern runs; the tick after it finds the run in each phase
+    for first_hold in [0u8, 1] {
+        for hold_next in 0..5u8 {
+            for timeout in [0u8, 1] {
+                for (at, advance_to) in [(0u8, 0u8), (2, 1), (2, 2), (3, 1), (3, 2)] {
+                    for more_items in [false, true] {
+                        v.push(WakeCase {
+                            threads: 1,
+                            items: 40,
+                            first_by_pattern: false,
+                            first_hold,
+                            ticks: vec![TickPlan { timeout: 0, change_pattern: false, more_items, at: 0, advance_to: 0, hold_next, clear_pattern: true }, TickPlan { timeout, change_pattern: false, more_items: false, at, advance_to, hold_next: 2, clear_pattern: false }],
+                            push_threads: 1,
+                            push_batches: vec![],
+                            empty_pattern: false,
+                            inflight_first: false,
+                            final_tick: false,
+                        });
+                    }
+                }
             }
         }
     }
@@ -111,7 +137,7 @@ impl Check for C13 {
         400
     }
     fn rule(&self) -> String {
-        "two-party schedules between the ticking thread and the background run, owned by the driver through hook points: the run is held at RUN_AFTER_SCAN / RUN_AFTER_SORT / RUN_BEFORE_NOTIFY_READ / RUN_AFTER_NOTIFY; each subject tick (timeout 0|1, with or without a pattern change or new items) moves the run at TICK_AFTER_CLEAR / TICK_TRYLOCK_FAILED / TICK_AFTER_REARM past its flag read (lock still held) or to completion. All 320 single-tick plans are enumerated as templates in every run; 2-3 tick plans are sampled. Oracle: notification ledger vs run-completion events: for every tick that returned running=true and whose run was not cancelled later, at least one notify call happened after that tick began and not before the run's results were available (RUN_AFTER_SORT). Second clause: inside the notify call made by a push/extend every item of that call is visible through get (1-3 injector threads). Non-trivial: the run passes its flag read while the tick is between clearing and re-arming the flag.".into()
+        "two-party schedules between the ticking thread and the background run, owned by the driver through hook points: the run is held at RUN_AFTER_SCAN / RUN_AFTER_SORT / RUN_BEFORE_NOTIFY_READ / RUN_AFTER_NOTIFY / RUN_JOB_DONE (the spawned job after its late flag check, before it returns); each subject tick (timeout 0|1, with or without a pattern change, a cleared pattern - a cancelled run followed by empty-pattern runs - or new items) moves the run at TICK_AFTER_CLEAR / TICK_TRYLOCK_FAILED / TICK_AFTER_REARM past its flag read (lock still held) or to completion. All single-tick plans (400) and 200 'cancel by clearing the pattern, then tick' plans are enumerated as templates in every run; 2-3 tick plans are sampled. Oracle: notification ledger vs run-completion events: for every tick that returned running=true and whose run was not cancelled later, at least one notify call happened after that tick began and not before the run's results were available (RUN_AFTER_SORT). Second clause: inside the notify call made by a push/extend every item of that call is visible through get (1-3 injector threads). Non-trivial: the run passes its flag read while the tick is between clearing and re-arming the flag.".into()
     }
     fn assumptions(&self) -> Vec<String> {
         vec!["'eventually' is checked as 'by the time the run has ended and nothing is left running' (bounded history)".into(), "sequentially consistent schedules at hook-point granularity".into()]
@@ -126,8 +152,8 @@ impl Check for C13 {
         single_tick_plans()
     }
     fn strategy(&self, _tier: Tier) -> BoxedStrategy<WakeCase> {
-        let plan = (0u8..2, proptest::bool::weighted(0.3), proptest::bool::weighted(0.3), 0u8..4, 0u8..3, 0u8..4).prop_map(|(timeout, change_pattern, more_items, at, advance_to, hold_next)| TickPlan { timeout, change_pattern, more_items, at, advance_to, hold_next });
-        (1u8..=3, 1u16..200, any::<bool>(), 0u8..4, proptest::collection::vec(plan, 1..=3), 1u8..=3, proptest::collection::vec(1u8..40, 0..=4), (proptest::bool::weighted(0.3), proptest::bool::weighted(0.35), proptest::bool::weighted(0.5)))
+        let plan = (0u8..2, proptest::bool::weighted(0.3), proptest::bool::weighted(0.3), 0u8..4, 0u8..3, 0u8..5, proptest::bool::weighted(0.15)).prop_map(|(timeout, change_pattern, more_items, at, advance_to, hold_next, clear_pattern)| TickPlan { timeout, change_pattern: change_pattern && !clear_pattern, more_items, at, advance_to, hold_next, clear_pattern });
+        (1u8..=3, 1u16..200, any::<bool>(), 0u8..5, proptest::collection::vec(plan, 1..=3), 1u8..=3, proptest::collection::vec(1u8..40, 0..=4), (proptest::bool::weighted(0.3), proptest::bool::weighted(0.35), proptest::bool::weighted(0.5)))
             .prop_map(|(threads, items, first_by_pattern, first_hold, ticks, push_threads, push_batches, (empty_pattern, inflight_first, final_tick))| WakeCase { threads, items, first_by_pattern, first_hold, ticks, push_threads, push_batches, empty_pattern, inflight_first, final_tick })
             .boxed()
     }
@@ -203,12 +229,12 @@ impl Check for C13 {
             // bring the matcher to a fresh idle state first, then spawn the run by a pattern change
             let _ = nuc.tick(50);
             if gate::wait_runs_idle() == Waited::Timeout {
-                inconclusive = true;
+                inconclusive = { if std::env::var("C13_DEBUG").is_ok() { eprintln!("timeout at line {}", line!()); } true };
             }
             let _ = nuc.tick(50);
         }
         nuc.pattern.reparse(0, &text, CaseMatching::Smart, Normalization::Smart, false);
-        gate::hold_run_at(HOLDS[c.first_hold as usize % 4]);
+        gate::hold_run_at(HOLDS[c.first_hold as usize % HOLDS.len()]);
         if !c.first_by_pattern && !c.empty_pattern {
             // pattern changes always cancel: apply the pattern before any item was processed, then add
             // items so that the spawning tick is a plain "new items" tick
@@ -217,15 +243,15 @@ impl Check for C13 {
             let _ = gate::wait_runs_idle();
             let _ = nuc.tick(50);
             push_items(5, &mut next_id);
-            gate::hold_run_at(HOLDS[c.first_hold as usize % 4]);
+            gate::hold_run_at(HOLDS[c.first_hold as usize % HOLDS.len()]);
         }
         let b = gate::log_event(hsite::TICK_BEGIN, 0);
         let st = nuc.tick(0);
         let e = gate::log_event(hsite::TICK_END, st.running as u64);
         ticks.push((b, e, st.running, c.first_by_pattern));
         let (started, _) = gate::runs();
-        if gate::wait_run_parked_or_ended(HOLDS[c.first_hold as usize % 4], started) == Waited::Timeout {
-            inconclusive = true;
+        if gate::wait_run_parked_or_ended(HOLDS[c.first_hold as usize % HOLDS.len()], started) == Waited::Timeout {
+            inconclusive = { if std::env::var("C13_DEBUG").is_ok() { eprintln!("timeout at line {}", line!()); } true };
         }
 
         if let Some(h) = held_writer.take() {
@@ -240,13 +266,17 @@ impl Check for C13 {
             if p.more_items {
                 push_items(3, &mut next_id);
             }
-            if p.change_pattern {
+            if p.clear_pattern {
+                text.clear();
+                nuc.pattern.reparse(0, &text, CaseMatching::Smart, Normalization::Smart, false);
+                out.label("pattern-cleared");
+            } else if p.change_pattern {
                 text.push('b');
                 nuc.pattern.reparse(0, &text, CaseMatching::Smart, Normalization::Smart, true);
             }
             let at = tick_site(p.at);
             let adv = p.advance_to;
-            let hold_next = HOLDS[p.hold_next as usize % 4];
+            let hold_next = HOLDS[p.hold_next as usize % HOLDS.len()];
             let mut done = false;
             gate::TICK_PLAN.with(|tp| {
                 *tp.borrow_mut() = Some(Box::new(move |s: u32| {
@@ -279,7 +309,7 @@ impl Check for C13 {
                 }
             };
             let e = gate::log_event(hsite::TICK_END, st.running as u64);
-            ticks.push((b, e, st.running, p.change_pattern));
+            ticks.push((b, e, st.running, p.change_pattern || p.clear_pattern));
             // a run spawned by this tick parks at hold_next
             let cur_hold = gate::ctl().st.lock().run_hold;
             if cur_hold != site::RUN_AFTER_NOTIFY || adv != 1 {
@@ -289,14 +319,14 @@ impl Check for C13 {
             if started > ended {
                 let h = gate::ctl().st.lock().run_hold;
                 if gate::wait_run_parked_or_ended(h, started) == Waited::Timeout {
-                    inconclusive = true;
+                    inconclusive = { if std::env::var("C13_DEBUG").is_ok() { eprintln!("timeout at line {}", line!()); } true };
                 }
             }
         }
         // ---- quiescence ----------------------------------------------------------------------
         gate::release_run();
         if gate::wait_runs_idle() == Waited::Timeout {
-            inconclusive = true;
+            inconclusive = { if std::env::var("C13_DEBUG").is_ok() { eprintln!("timeout at line {}", line!()); } true };
         }
         std::thread::sleep(std::time::Duration::from_micros(500));
         if c.final_tick && !inconclusive && fail.is_none() {
@@ -312,7 +342,7 @@ impl Check for C13 {
                 Err(m) => fail = Some(("tick-panic".into(), m)),
             }
             if gate::wait_runs_idle() == Waited::Timeout {
-                inconclusive = true;
+                inconclusive = { if std::env::var("C13_DEBUG").is_ok() { eprintln!("timeout at line {}", line!()); } true };
             }
             std::thread::sleep(std::time::Duration::from_micros(500));
         }
@@ -358,6 +388,9 @@ impl Check for C13 {
             }
         }
         if inconclusive {
+            if std::env::var("C13_DEBUG").is_ok() {
+                eprintln!("INCONCLUSIVE {c:?}");
+            }
             out.label("inconclusive(timeout)");
         }
         *shared.inj.lock() = None;
